@@ -5,10 +5,12 @@
    Model: Model/Empty.v (insert_empties, strip_empties, gvalue, neutral). *)
 From Coq Require Import List Bool Arith QArith ZArith.
 From SF Require Import Base.GeomAST Base.QKernel Base.Planar Model.Empty Proofs.Empty_proofs
-  Proofs.Empty_obs_proofs Proofs.Empty_ix_proofs Proofs.Empty_centroid_proofs Proofs.Empty_boundary_proofs Proofs.Empty_codec_proofs.
+  Proofs.Empty_obs_proofs Proofs.Empty_ix_proofs Proofs.Empty_centroid_proofs Proofs.Empty_boundary_proofs Proofs.Empty_codec_proofs
+  Proofs.Empty_refresh_proofs Proofs.Empty_transform_proofs Proofs.Empty_ee_proofs Proofs.Empty_pos_proofs.
 From SF Require Model.Envelope Model.Measure Model.Hull Model.Relate Model.SetOpSpec Model.Intersects Model.Distance
   Model.Boundary Proofs.Boundary_proofs Proofs.Relate_proofs Proofs.Intersects_proofs
-  Base.Outcome Model.WKB Model.WKT Model.GeoJSON.
+  Base.Outcome Model.WKB Model.WKT Model.GeoJSON
+  Proofs.Intersects_areal Proofs.Planar_slab_base Model.TrReverse Model.TrForce Model.ExactEq Model.PointOnSurface Model.Calipers.
 Import ListNotations.
 Local Close Scope Q_scope.
 Local Open Scope nat_scope.
@@ -291,6 +293,146 @@ Theorem neutral_set_operations : forall o ea eb,
 Proof. intros o ea eb. destruct o, ea, eb; simpl; intros H; try reflexivity; discriminate. Qed.
 Print Assumptions neutral_set_operations.
 
+(* ================================================================ against the point sets of the plane *)
+(* The sibling properties have since proved their models exact against ALL points of Q^2 (C09:
+   intersects_exact, distance_is_min; C02: slab sufficiency, de9im_ref_sufficient,
+   disjoint_iff_no_common_point; C01: judge_everywhere).  Combined with the transparency above: *)
+
+(* Intersects of operands with inserted empties <-> the point sets share a point (taken with or
+   without the empty members); hypotheses on the operands WITHOUT the inserted members only *)
+Theorem insert_intersects_pointset : forall (a b : geomT Q) p q,
+  Intersects_areal.operand_ok a -> Intersects_areal.operand_ok b ->
+  (Intersects.intersects (insert_empties a p) (insert_empties b q) = true <->
+   exists x, inG (insert_empties a p) x = true /\ inG (insert_empties b q) x = true) /\
+  (Intersects.intersects (insert_empties a p) (insert_empties b q) = true <->
+   exists x, inG a x = true /\ inG b x = true).
+Proof. exact ins_intersects_pointset. Qed.
+Print Assumptions insert_intersects_pointset.
+
+(* Distance (squared) of operands with inserted empties is attained by, and is a lower bound for,
+   the pairs of points of the two point sets; it is zero exactly when they share a point *)
+Theorem insert_distance_pointset : forall (a b : geomT Q) p q d,
+  Intersects_areal.operand_ok a -> Intersects_areal.operand_ok b ->
+  Distance.dist2 (insert_empties a p) (insert_empties b q) = Some d ->
+  (exists x y, inG (insert_empties a p) x = true /\ inG (insert_empties b q) y = true /\ (d == Distance.d2_xy x y)%Q) /\
+  (forall x y, inG (insert_empties a p) x = true -> inG (insert_empties b q) y = true -> (d <= Distance.d2_xy x y)%Q).
+Proof. exact ins_distance_pointset. Qed.
+Print Assumptions insert_distance_pointset.
+
+Theorem insert_distance_zero_iff_common_point : forall (a b : geomT Q) p q,
+  Intersects_areal.operand_ok a -> Intersects_areal.operand_ok b ->
+  ((exists d, Distance.dist2 (insert_empties a p) (insert_empties b q) = Some d /\ (d == 0)%Q) <->
+   exists x, inG (insert_empties a p) x = true /\ inG (insert_empties b q) x = true).
+Proof. exact ins_distance_zero. Qed.
+Print Assumptions insert_distance_zero_iff_common_point.
+
+(* Relate of non-empty operands with inserted empties IS the reference matrix of the operands, and an
+   entry is set iff some point of the plane has that pair of locations in the operands as given *)
+Theorem insert_relate_all_points : forall (a b : geomT Q) p q la lb,
+  is_empty a = false -> is_empty b = false -> Planar_slab_base.rings_closed a -> Planar_slab_base.rings_closed b ->
+  (mget (Relate.relate (insert_empties a p) (insert_empties b q)) la lb <> DF <->
+   exists x, locate (insert_empties a p) x = la /\ locate (insert_empties b q) x = lb) /\
+  Relate.relate (insert_empties a p) (insert_empties b q) = de9im_ref a b.
+Proof. exact ins_relate_all_points. Qed.
+Print Assumptions insert_relate_all_points.
+
+(* Disjoint, every pair of operands (empty ones included) *)
+Theorem insert_disjoint_all_points : forall (a b : geomT Q) p q,
+  Planar_slab_base.rings_closed a -> Planar_slab_base.rings_closed b ->
+  (Relate.go_disjoint (Relate.enc_matrix (Relate.relate (insert_empties a p) (insert_empties b q))) = Relate.RM true <->
+   forall x, ~ (inG (insert_empties a p) x = true /\ inG (insert_empties b q) x = true)).
+Proof. exact ins_disjoint_all_points. Qed.
+Print Assumptions insert_disjoint_all_points.
+
+(* Union / Intersection: a result that passes C01's judgement against operands WITH inserted empties
+   is the Boolean combination of the point sets of the operands WITHOUT them at EVERY point of the
+   plane, and the other way round *)
+Theorem insert_set_operation_all_points : forall o (a b r : geomT Q) p q,
+  (o = SetOpSpec.OpUnion \/ o = SetOpSpec.OpInter) ->
+  forallb SetOpSpec.rings_closed_b [a; b; r] = true ->
+  (SetOpSpec.v_agree (SetOpSpec.judge o (insert_empties a p) (insert_empties b q) r) = true ->
+   forall x, inG r x = SetOpSpec.op_bool o (inG a x) (inG b x)) /\
+  (SetOpSpec.v_agree (SetOpSpec.judge o a b r) = true ->
+   forall x, inG r x = SetOpSpec.op_bool o (inG (insert_empties a p) x) (inG (insert_empties b q) x)).
+Proof. intros o a b r p q Ho Hc. split; [apply ins_judge_everywhere | apply ins_judge_everywhere']; assumption. Qed.
+Print Assumptions insert_set_operation_all_points.
+
+(* ================================================================ transformations (C17) and the rest of the API *)
+(* A transformation that commutes with the removal of empty members gives, on a geometry with
+   inserted empties, its result on the geometry itself up to empty members - which is what the
+   correspondence compares.  Reverse, ForceCoordinatesType / Force2D, ForceCW / ForceCCW: *)
+Theorem insert_reverse : forall F (g : geomT F) p,
+  strip_empties (TrReverse.rev_geom (insert_empties g p)) = strip_empties (TrReverse.rev_geom g).
+Proof. intros F g p. apply commuting_transform_transparent. intros g0. apply rev_geom_strip. Qed.
+Print Assumptions insert_reverse.
+
+Theorem insert_force_coordinates_type : forall F (zero : F) ct (g : geomT F) p,
+  strip_empties (force_geom zero ct (insert_empties g p)) = strip_empties (force_geom zero ct g).
+Proof. intros F zero ct g p. apply commuting_transform_transparent. intros g0. apply force_geom_strip. Qed.
+Print Assumptions insert_force_coordinates_type.
+
+Theorem insert_force_orientation : forall (g : geomT Q) p,
+  strip_empties (TrForce.geom_force_cw (insert_empties g p)) = strip_empties (TrForce.geom_force_cw g) /\
+  strip_empties (TrForce.geom_force_ccw (insert_empties g p)) = strip_empties (TrForce.geom_force_ccw g) /\
+  TrForce.geom_is_cw (insert_empties g p) = TrForce.geom_is_cw g /\
+  TrForce.geom_is_ccw (insert_empties g p) = TrForce.geom_is_ccw g.
+Proof.
+  intros g p. repeat split.
+  - apply commuting_transform_transparent. intros g0. apply force_cw_strip.
+  - apply commuting_transform_transparent. intros g0. apply force_cw_strip.
+  - apply (obs_factors_through_parts_lemma Q eq TrForce.geom_is_cw); try congruence.
+    intros g0. apply geom_is_strip. intros y Hy. apply (is_cw_empty_poly y Hy).
+  - apply (obs_factors_through_parts_lemma Q eq TrForce.geom_is_ccw); try congruence.
+    intros g0. apply geom_is_strip. intros y Hy. apply (is_cw_empty_poly y Hy).
+Qed.
+Print Assumptions insert_force_orientation.
+
+(* rotated minimum bounding rectangles (Model/Calipers.v, C13): a function of the hull input *)
+Theorem insert_rotated_rectangles : forall k (g : Hull.geomZ) p,
+  Calipers.mbr_pts k (Hull.point_set (insert_empties g p)) = Calipers.mbr_pts k (Hull.point_set g).
+Proof.
+  intros k g p. f_equal. apply (obs_factors_through_parts_lemma Z eq Hull.point_set); try congruence.
+  apply strip_point_set.
+Qed.
+Print Assumptions insert_rotated_rectangles.
+
+(* ExactEquals (Model/ExactEq.v, C18) is structural: NOT transparent by design (row OExactEquals of the
+   table promises nothing), but total and reflexive on geometries with inserted typed empties *)
+Theorem exact_equals_on_inserted : forall (simple : lineT N -> bool),
+  neutral OExactEquals WBoth = ANotApplicable /\
+  (forall tol io (g : geomT N) p, ExactEq.nan_free g = true ->
+     ExactEq.exact_equals simple tol io (insert_empties g p) (insert_empties g p) = true) /\
+  (exists (g : geomT N) p, ExactEq.nan_free g = true /\
+     ExactEq.exact_equals simple 0 false (insert_empties g p) g = false).
+Proof.
+  intros simple. split; [reflexivity|]. split; [intros; apply ins_ee_refl; assumption | apply ee_sees_empty_members].
+Qed.
+Print Assumptions exact_equals_on_inserted.
+
+(* PointOnSurface (Model/PointOnSurface.v, C15): C15's domain is closed under insertion and the result
+   is POINT EMPTY exactly when the geometry is empty (row OPointOnSurface) *)
+Theorem point_on_surface_on_inserted : forall (cen : geomT Q -> option pt) (g : geomT Q) p,
+  (forall x, is_empty x = false -> cen x <> None) -> Boundary.geom_wf g = true ->
+  neutral OPointOnSurface WBoth = AEmptyPoint /\
+  Boundary.geom_wf (insert_empties g p) = true /\
+  point_empty (PointOnSurface.pos cen (insert_empties g p)) = is_empty g.
+Proof.
+  intros cen g p Hc W. split; [reflexivity|]. split; [rewrite ins_geom_bwf; exact W | apply ins_pos_empty_iff; assumption].
+Qed.
+Print Assumptions point_on_surface_on_inserted.
+
+(* rows OReverse, OForceCW, OForceCCW, OIsCW, OIsCCW of the neutral answer table *)
+Theorem neutral_transformations : forall (g : geomT Q), is_empty g = true ->
+  neutral OReverse WBoth = ASame /\ neutral OForceCW WBoth = ASame /\ neutral OForceCCW WBoth = ASame /\
+  neutral OIsCW WBoth = ABool true /\ neutral OIsCCW WBoth = ABool true /\
+  TrReverse.rev_geom g = g /\ TrForce.geom_force_cw g = g /\ TrForce.geom_force_ccw g = g /\
+  TrForce.geom_is_cw g = true /\ TrForce.geom_is_ccw g = true.
+Proof.
+  intros g E. destruct (force_cw_of_empty g E) as [A B]. destruct (geom_is_cw_of_empty g E) as [C D].
+  repeat split; try assumption. apply rev_geom_of_empty. exact E.
+Qed.
+Print Assumptions neutral_transformations.
+
 (* ================================================================ codecs accept them *)
 (* The domains of the round-trip theorems of C04, C05, C06 are closed under insertion of typed empty
    members (the members carry the node's coordinates type, so "all nodes agree" is kept): *)
@@ -362,4 +504,16 @@ Definition ex_gn : geomT N :=
 Example ex_codecs :
   WKB.wf_wkb ex_gn = true /\ WKB.geom_wf (insert_empties ex_gn ex_p) = true /\
   WKT.wkt_dom ex_gn = true /\ GeoJSON.same_ct ex_gn = true /\ is_empty (insert_empties ex_gn ex_p) = false.
+Proof. vm_compute. auto. Qed.
+
+(* the hypotheses of the point-set level theorems are satisfiable by a collection holding a polygon
+   with a hole, a line string and a point (and decidable: C09 operand_ok_decidable) *)
+Definition ex_q (x y : Z) : vtx Q := Build_vtx (inject_Z x) (inject_Z y) 0%Q 0%Q.
+Definition ex_gq : geomT Q :=
+  GColl XY [GPoly (MkPoly XY [MkLine XY [ex_q 0 0; ex_q 6 0; ex_q 6 6; ex_q 0 6; ex_q 0 0];
+                               MkLine XY [ex_q 2 2; ex_q 2 4; ex_q 4 4; ex_q 4 2; ex_q 2 2]]);
+            GMLine XY [MkLine XY [ex_q 7 0; ex_q 9 3]]; GPoint (MkPoint XY (Some (ex_q 3 3)))].
+Example ex_pointset_hyps :
+  Intersects_polypoly.operand_okb ex_gq = true /\ SetOpSpec.rings_closed_b ex_gq = true /\
+  Boundary.geom_wf ex_gq = true /\ is_empty (insert_empties ex_gq ex_p) = false.
 Proof. vm_compute. auto. Qed.
